@@ -15,7 +15,14 @@ def generate(rng, kind, n):
     cases = []
     for _ in range(n):
         ops = [OM.GEN[kind](rng) for _ in range(rng.randint(0, 10))]
-        cases.append({"kind": kind, "compose": valid_compose(rng, R), "ops": ops})
+        c = {"kind": kind, "compose": valid_compose(rng, R), "ops": ops}
+        if kind == "modules" and rng.random() < 0.5:
+            # one list object handed to several add calls (shared by reference in the implementation run only)
+            c["shared"] = [["a-0:1-1.x86_64", "b-0:1-1.noarch"], ["c-0:2-1.x86_64"]]
+            for op in ops:
+                if isinstance(op[6], list) and rng.random() < 0.7:
+                    op[6] = {"ref": rng.randrange(2)}
+        cases.append(c)
     return cases
 
 
@@ -33,7 +40,7 @@ def impl_roundtrip(case):
     o = _new(kind)
     for k, v in case["compose"].items():
         setattr(o.compose, k, v)
-    for op in case["ops"]:
+    for op in OM.resolve_ops(case, True):
         try:
             o.add(*op)
         except EXC:
